@@ -41,3 +41,30 @@ PROPS["C16"] = {
                          "tiers": {"quick": T(1, 1, timeout=300), "thorough": T(1, 1, timeout=300)}},
     },
 }
+
+PROPS["C17"] = {
+    "level": "exploration",
+    "technique": "differential property testing vs netip.Prefix.Contains (boundary-aimed generators) + pipeline-level 'denied => zero downstream effects' oracle on the real default chain, both ingress branches",
+    "level_text": ("Generated CIDR lists (nested, adjacent, duplicate, host bits, v4-mapped, malformed) and addresses at every range boundary +-1 are judged against an independent per-prefix scan; "
+                   "the same lists drive accesslist, views and the real default chain (wire-born and decoded ingress) where a denied source must produce no reply, no upstream call and no cache entry; "
+                   "random handler lists check that ClientOnly handlers never run for auto-wired internal sub-queries. Exploration: sampled inputs, no exhaustiveness claim."),
+    "level_note": "Trusted: net/netip as the membership reference; the harness transports stand in for UDP/TCP/DoT/DoH/DoQ writers (real DoH/DoQ sockets are not opened for this property).",
+    "rule": ("evaluations = (list, address, transport) probes. Non-trivial = address within +-1 of a prefix boundary or covered by >=2 prefixes (ipset), every accesslist/default-chain probe (classified allowed/denied/internal), "
+             "views probes matched by >=1 view, autowire cases where a ClientOnly handler exists and an internal sub-query ran; distinct = hash(class, verdict, family, list shape)."),
+    "assumptions": ["loopback sources are skipped in the default-chain unit because 127.0.0.255:0 is the documented internal sentinel"],
+    "units": {
+        "ipset": {"pkg": "./internal/ipset", "run": "^TestVerifC17IPSet$",
+                  "tiers": {"quick": T(4000, 4, timeout=300), "thorough": T(150000, 8, timeout=3000)},
+                  "floors": {"C17.ipset": {"boundary±1": 0.5, "overlap>=2": 0.1, "v4-mapped": 0.05}}},
+        "accesslist": {"pkg": "./middleware/accesslist", "run": "^TestVerifC17AccessList$",
+                       "tiers": {"quick": T(2000, 2, timeout=300), "thorough": T(60000, 4, timeout=3000)},
+                       "floors": {"C17.accesslist": {"allowed=true": 0.1, "allowed=false": 0.1, "internal-bypass": 0.01}}},
+        "views": {"pkg": "./middleware/views", "run": "^TestVerifC17Views$",
+                  "tiers": {"quick": T(2000, 2, timeout=300), "thorough": T(60000, 4, timeout=3000)},
+                  "floors": {"C17.views": {"overlapping-views": 0.05, "matched-view-without-record": 0.02}}},
+        "autowire": {"pkg": "./middleware", "run": "^TestVerifC17AutoWire$",
+                     "tiers": {"quick": T(3000, 1, timeout=300), "thorough": T(100000, 2, timeout=3000)}},
+        "defaultchain": {"pkg": "./server", "run": "^TestVerifC17DefaultChain$",
+                         "tiers": {"quick": T(150, 4, timeout=400), "thorough": T(3000, 6, timeout=3000)}},
+    },
+}
